@@ -214,6 +214,31 @@ theorem extremes_counted (a : Rat) (rest : List Rat) (hne : rest ≠ [])
   · obtain ⟨k, hk, _⟩ := cut_unique p _ ⟨B.lt_trans h0 hlt, B.lt_asymm h1⟩
     exact ⟨k, hk⟩
 
+/-- **A histogram row depends only on the multiset of the sequence's values**: permuting the events
+leaves every count unchanged (any intervals, partition or not). -/
+theorem counts_perm (bins : List Bin) (xs ys : List Rat) (hp : xs.Perm ys) :
+    counts bins xs = counts bins ys := by
+  unfold counts countAt
+  apply List.map_congr_left
+  intro i _
+  exact (hp.filter _).length_eq
+
+/-- **Additivity**: the row of a concatenated sequence is the entrywise sum of the rows of its parts —
+no event is lost or double-counted when sequences are joined or split (any intervals). -/
+theorem counts_append (bins : List Bin) (xs ys : List Rat) :
+    counts bins (xs ++ ys) = List.zipWith (· + ·) (counts bins xs) (counts bins ys) := by
+  apply List.ext_getElem
+  · simp [counts]
+  · intro i h1 h2
+    simp [counts, countAt, List.filter_append]
+
+/-- an empty sequence gives the all-zero row of the fitted width -/
+theorem counts_nil (bins : List Bin) : counts bins [] = List.replicate bins.length 0 := by
+  apply List.ext_getElem
+  · simp [counts]
+  · intro i h1 h2
+    simp [counts, countAt]
+
 /-! ### KDE — for every linearly ordered field (ℚ, ℝ, …) -/
 
 section KDE
@@ -261,6 +286,13 @@ example :
     counts [⟨.fin 0, .fin 4⟩, ⟨.fin 4, .fin 7⟩, ⟨.fin 7, .fin 20⟩] [1, 10, -100, 100, 0, 20, 4, 7] = [2, 1, 2] ∧
     List.Pairwise (· < ·) ([1, 4, 7, 10] : List Rat) ∧
     (B.fin 0 < B.fin 1) ∧ (B.fin 10 < B.fin 20) := by
+  decide
+
+/-- `counts_perm` / `counts_append` on a concrete row (values on interval edges and outside the range) -/
+example :
+    counts [⟨.fin 0, .fin 4⟩, ⟨.fin 4, .fin 7⟩, ⟨.fin 7, .fin 20⟩] ([1, 10, -100] ++ [100, 0, 20, 4, 7]) =
+      List.zipWith (· + ·) [1, 0, 1] [1, 1, 1] ∧
+    counts [⟨.fin 0, .fin 4⟩, ⟨.fin 4, .fin 7⟩, ⟨.fin 7, .fin 20⟩] ([100, 0, 20, 4, 7] ++ [1, 10, -100]) = [2, 1, 2] := by
   decide
 
 /-- the hypotheses of `kde_perm` / `kde_nonneg` are satisfiable (ℚ, top-hat kernel, bandwidth 2) -/
